@@ -188,7 +188,8 @@ def run_variant(f, q, variant):
     if variant in ("list", "reversed"):
         filters = [_fsql(e, m + ".") for m, e in fl]
     elif variant == "conj":
-        filters = [" AND ".join(_fsql(e, m + ".") for m, e in fl)]
+        # one conjunction: the parts keep their own parentheses (a bare `a OR b` next to AND would change its meaning)
+        filters = [" AND ".join(fsql(e, m + ".") for m, e in fl)]
     elif variant in ("segment_model", "segment_bare"):
         # the same predicate text gets the same segment NAME on every model that carries it (a soft-delete `live` segment declared on several models)
         texts = []
